@@ -161,13 +161,8 @@ class Env(dict):
             return False
 
     def __missing__(self, leaf):
-        if isinstance(leaf, tuple) and leaf and leaf[0] == 'opq' and leaf[2] == 'op':
-            op, a, b = terms.OPS[leaf[3]][:3]
-            x, y = ev_term(a, self), ev_term(b, self)
-            w = leaf[1]
-            r = {'BitAnd': x & y, 'BitOr': x | y, 'BitXor': x ^ y}[op] & mask(w)
-            self[leaf] = r
-            return r
+        if isinstance(leaf, tuple) and leaf and leaf[0] == 'opq':
+            raise KeyError(leaf)        # opaque leaves are evaluated by terms.eval_leaf from their payload
         v = self.lookup(leaf)
         self[leaf] = v
         return v
